@@ -34,6 +34,115 @@ func runC17(p *Prog, r *Report) {
 	checkFraming(p, r)
 	checkRouteLoops(p, r)
 	checkSubnetMatch(p, r)
+	r.Min("C17.R7", 11+4)
+	checkParseBeforeUse(p, r, "C17.R7")
+	checkFlagFieldsReadOnly(p, r, "C17.R7", func(fr FlagReg) bool {
+		return fr.Name == "iface" || fr.Name == "srcip" || fr.Name == "srcmac" || fr.Name == "gwmac"
+	})
+}
+
+// checkParseBeforeUse: the values parseRawOptions derives from the raw flags (interface, source MAC,
+// port ranges, exclusion list, ...) are read only after it ran. In every function that calls a
+// parseRawOptions method, no call that (transitively) loads one of the fields it writes comes before it
+// on any path - otherwise --iface / --srcmac / ... are silently ignored by that command.
+func checkParseBeforeUse(p *Prog, r *Report, rule string) {
+	isParse := func(f *ssa.Function) bool {
+		return f != nil && f.Pkg == p.SPkg("command") && f.Name() == "parseRawOptions" && f.Signature.Recv() != nil
+	}
+	loadsCache := map[*ssa.Function]map[*types.Var]bool{}
+	loadsOf := func(f *ssa.Function) map[*types.Var]bool {
+		if m, ok := loadsCache[f]; ok {
+			return m
+		}
+		m := map[*types.Var]bool{}
+		for g := range p.staticReach(f) {
+			for _, b := range g.Blocks {
+				for _, in := range b.Instrs {
+					if u, ok := in.(*ssa.UnOp); ok && u.Op == token.MUL {
+						if fa, isFA := u.X.(*ssa.FieldAddr); isFA {
+							if fo := fieldObj(fa); fo != nil {
+								m[fo] = true
+							}
+						}
+					}
+				}
+			}
+		}
+		loadsCache[f] = m
+		return m
+	}
+	n := 0
+	for _, fn := range p.SrcFuncs() {
+		if fn.Pkg != p.SPkg("command") || isParse(fn) {
+			continue
+		}
+		var parse *ssa.Function
+		for _, b := range fn.Blocks {
+			for _, in := range b.Instrs {
+				if c, ok := in.(*ssa.Call); ok && isParse(StaticCallee(&c.Call)) {
+					parse = StaticCallee(&c.Call)
+				}
+			}
+		}
+		if parse == nil {
+			continue
+		}
+		n++
+		// fields written by the parse step
+		W := map[*types.Var]bool{}
+		for g := range p.staticReach(parse) {
+			for _, b := range g.Blocks {
+				for _, in := range b.Instrs {
+					if st, ok := in.(*ssa.Store); ok {
+						if fa, isFA := st.Addr.(*ssa.FieldAddr); isFA {
+							if fo := fieldObj(fa); fo != nil && fo.Pkg() == fn.Pkg.Pkg {
+								W[fo] = true
+							}
+						}
+					}
+				}
+			}
+		}
+		ok, why := true, ""
+		var parses []*ssa.Call
+		for _, b := range fn.Blocks {
+			for _, in := range b.Instrs {
+				if c, isC := in.(*ssa.Call); isC && isParse(StaticCallee(&c.Call)) {
+					parses = append(parses, c)
+				}
+			}
+		}
+		for _, b := range fn.Blocks {
+			for _, in := range b.Instrs {
+				c, isC := in.(*ssa.Call)
+				if !isC {
+					continue
+				}
+				cal := StaticCallee(&c.Call)
+				if cal == nil || cal.Pkg != fn.Pkg || isParse(cal) {
+					continue
+				}
+				after := false
+				for _, pc := range parses {
+					if startAfter(fn, pc, c) {
+						after = true
+					}
+				}
+				if after {
+					continue
+				}
+				for f := range loadsOf(cal) {
+					if W[f] {
+						ok, why = false, fmt.Sprintf("%s reads the options field %s, but no parseRawOptions call dominates it (the flag behind it is ignored on some path)", cal.Name(), f.Name())
+					}
+				}
+			}
+		}
+		r.Check(ok, rule, FuncName(fn)+"/parse-before-use", p.Pos(fn.Pos()), "nothing that reads a field derived by parseRawOptions is called before parseRawOptions on any path", why)
+	}
+	if n < 11 {
+		r.Viol(rule, "parse-before-use/sites", "-", "every command calls parseRawOptions", fmt.Sprintf("found %d callers", n))
+	}
 }
 
 func rangeBuilder(p *Prog) *ssa.Function {
